@@ -82,8 +82,8 @@ PROPS["C01"] = {
 
 PROPS["C13"] = {
     "level": "proof",
-    "streams": ["cache"],
-    "ops": ["refresh", "inject", "permrestore"],
+    "streams": ["cache", "watch"],
+    "ops": ["refresh", "inject", "permrestore", "history"],
     "trusted_base": CACHE_TB,
     "assumptions": ["files taking part in a same-priority conflict count as files in error (I1)",
                     "directories that cannot be listed because of permissions are exercised only when the harness can drop privileges (counted as skipped otherwise)"],
